@@ -227,7 +227,7 @@ func init() {
 		// must not depend on what the first child did
 		decl := map[string]Event{"": {K: "ns", Lo: ch(""), V: uriU1}, "p": {K: "ns", Lo: ch("p"), V: uriU1}, "q": {K: "ns", Lo: ch("q"), V: uriU2}}
 		for _, order := range [][]string{{""}, {"p"}, {"", "p"}, {"p", ""}, {"", "p", "q"}, {"p", "", "q"}, {"p", "q", ""}, {"q", "p"}, {"", "q"}, {"q", ""}} {
-			for childDoes := 0; childDoes < 6; childDoes++ {
+			for childDoes := 0; childDoes < 8; childDoes++ {
 				out := []Event{{K: "elem", Lo: ch("r")}}
 				for _, p := range order {
 					out = append(out, decl[p])
@@ -244,10 +244,17 @@ func init() {
 					out = append(out, Event{K: "ns", Lo: ch(""), V: ch("")}, Event{K: "ns", Lo: ch("n1"), V: uriU1}, Event{K: "attr", Lo: ch("y"), V: ch("2")})
 				case 5:
 					out = append(out, Event{K: "ns", Lo: ch(""), V: uriU2}, Event{K: "ns", Lo: ch(""), V: ch("")})
+				case 6:
+					// a prefixed declaration with an empty URI is a binding of that prefix, not an undeclaration of the default
+					out = append(out, Event{K: "ns", Lo: ch("p"), V: ch("")})
+				case 7:
+					out = append(out, Event{K: "ns", Lo: ch("q"), V: ch("")}, Event{K: "attr", Lo: ch("y"), V: ch("2")})
 				}
 				out = append(out, Event{K: "elem", Lo: ch("inner")}, Event{K: "end"}, Event{K: "end"},
 					Event{K: "elem", Lo: ch("after")}, Event{K: "elem", Lo: ch("deep")}, Event{K: "text", V: ch("t")}, Event{K: "end"}, Event{K: "end"},
-					Event{K: "comment", V: ch("c")}, Event{K: "end"})
+					Event{K: "comment", V: ch("c")},
+					// processing instructions whose target merely begins with x-m-l are ordinary nodes
+					Event{K: "pi", Lo: ch("xml-stylesheet"), V: ch("h")}, Event{K: "end"}, Event{K: "pi", Lo: ch("XMLthing"), V: ch("d")})
 				writeTrace(storeTraceLine(out))
 			}
 		}
